@@ -177,6 +177,16 @@ func (cfg Config) Annotate(n ast.Node) bool {
 	}
 	var changed bool
 
+	// Doc comments the parser hung on a field's label belong to the
+	// field; move them first so that every pass below, and the
+	// converter, see them in the same place.
+	ast.Walk(n, func(node ast.Node) bool {
+		if f, ok := node.(*ast.Field); ok {
+			pretty.HoistLabelDocComments(f)
+		}
+		return true
+	}, nil)
+
 	if cfg.Labels {
 		if simplifyLabels(n) {
 			changed = true
